@@ -80,6 +80,26 @@ theorem C19_conv_roundtrip_redis (i : RedisInfo) :
 
 theorem C19_node_info_roundtrip (n : NodeInfo) : n.conv.conv = n := rfl
 
+/-- **C19 (sentinel: the description of the monitored servers is used on every route).** However
+the sentinels are named - by urls, by connection structures, or not at all - the manager is
+built with the configured `node_connection_info`, so the connections to the monitored server
+authenticate with its username / password and select its database exactly as a direct
+conversion of it would (nothing is dropped on one of the routes); no manager is built only
+when both urls and connections are given. -/
+theorem C19_sentinel_node {α β : Type} (urls : Option α) (conns : Option β) (node : Option NodeInfo) :
+    (¬ (urls.isSome ∧ conns.isSome) →
+      sentinelNode urls conns node = some (node.map NodeInfo.conv) ∧
+      ∀ n', sentinelNode urls conns node = some n' → nodeWire n' = nodeWire node) ∧
+    (urls.isSome ∧ conns.isSome → sentinelNode urls conns node = none) := by
+  have hw : nodeWire (node.map NodeInfo.conv) = nodeWire node := by
+    cases node <;> rfl
+  cases urls <;> cases conns <;> simp [sentinelNode, decide, hw]
+
+/-- not vacuous: credentials and database of a node description reach the wire -/
+example :
+    nodeWire (some ⟨none, some ⟨5, some "u", some "p", .resp2⟩⟩) =
+      { auth := some (some "u", "p"), db := 5 } := rfl
+
 /-- address, database, username, password and protocol survive each single conversion -/
 theorem C19_conv_fields (i : Info) :
     i.toRedis.redis = i.redis ∧
